@@ -18,6 +18,18 @@ func truncationDemanded(ann string, k int) bool {
 	return false
 }
 
+func hasUnspecified(v *cv) bool {
+	if v.k == "unspecified" {
+		return true
+	}
+	for _, k := range v.kids {
+		if hasUnspecified(k) {
+			return true
+		}
+	}
+	return false
+}
+
 // selftest (S6): (1) the generator's denotations, end offsets and truncation
 // rule agree with the independent reference reader on every text of the tier;
 // (2) every mutated reference reader is told apart from the real one by at
@@ -63,10 +75,10 @@ func selftest(tier string) (killed, total int, notes []string) {
 				complain("%q form %d: reference end %d, generator end %d", t.src, j, rr.ends[j], f.end)
 			}
 			d := f.den(c)
-			if d != nil && rr.unspecified {
+			if d != nil && hasUnspecified(rr.forms[j]) {
 				complain("%q: the generator gives a denotation where the reference reader has none", t.src)
 			}
-			if d != nil && !rr.unspecified && d.String() != rr.forms[j].String() {
+			if d != nil && !hasUnspecified(rr.forms[j]) && d.String() != rr.forms[j].String() {
 				complain("%q form %d: reference %s, generator %s", t.src, j, rr.forms[j], d)
 			}
 		}
